@@ -35,7 +35,7 @@ const ruleCommon = "a case is a rapid-drawn script (<=40 events) run against one
 
 var (
 	recHandshake = ev.New("C18", "handshake", ruleCommon+"Profile: 78% of the scripts carry a non-canonical handshake (one class per shape).",
-		"clean", "dup-version", "verack-first", "sendaddrv2-first", "app-first", "unknown-first", "obsolete-version", "self-nonce",
+		"clean", "dup-version", "verack-first", "sendaddrv2-first", "app-first", "unknown-first", "obsolete-version", "negative-version", "future-version", "self-nonce",
 		"wrongnet-first", "wrongnet-mid", "wrongnet-after", "app-mid", "malformed-first", "malformed-mid", "oversize-mid", "no-verack",
 		"dup-verack", "sendaddrv2-after", "dup-version-after", "sendaddrv2-low-version", "verack-version-swapped",
 		"inbound", "outbound", "refusal:self-connection", "refusal:obsolete-version", "refusal:wrong-network", "refusal:nonversion-first",
